@@ -47,6 +47,8 @@ def gen_value(vr, rng, uid_len=None):
         return n, '(VUS %d)' % n
     if vr == 'AE':
         s = ''.join(rng.choice('ABCDEFGHIJ_0123') for _ in range(rng.randint(1, 16)))
+        if rng.random() < 0.3:
+            s = s.ljust(16)                      # padded with spaces to the full 16 bytes, as many toolkits send it
         return s, '(VAE %s)' % cbytes(s.encode())
     if vr == 'AT':
         tags = [(0x0010, 0x0010), (0x0010, 0x0020), (0x0008, 0x0018)][:rng.randint(1, 3)]
@@ -100,6 +102,24 @@ def scenario(cls, rng, n_ops, uid_len=None):
             ops_terms.append('(SetData %s)' % cbool(kind in ('bytes', 'file')))
             human.append('data_set=%s' % kind)
         else:
+            if rng.random() < 0.2 and (msg.data_set is None or isinstance(msg.data_set, (bytes, bytearray))):
+                # relay: the message travels, is received (command set decoded from its bytes, values as the peer
+                # wrote them) and the RECEIVED object is what gets sent on
+                from pynetdicom2 import dsutils
+                # (every field gets a value first: a received command set with zero-length elements cannot be sent on
+                # at all - set_length raises TypeError on pydicom's raw None values - observation O11)
+                for kw2, e2, vr2 in info:
+                    cur2 = getattr(msg.command_set, kw2, None)
+                    if cur2 in ('', None) or (hasattr(cur2, '__len__') and len(cur2) == 0):
+                        val2, term2 = gen_value(vr2, rng, uid_len)
+                        setattr(msg.command_set, kw2, val2)
+                        ops_terms.append('(SetField %d %s)' % (e2, term2))
+                        human.append('set %s=%r' % (kw2, val2))
+                keep = msg.data_set
+                msg = cls(dsutils.decode(dsutils.encode(msg.command_set, True, True), True, True))
+                if keep:
+                    msg.data_set = keep
+                human.append('relayed (re-created from its encoded command set)')
             assoc.send(msg, 1)
             sent_gens.append(assoc.dul.sent[-1])
             ops_terms.append('Send')
